@@ -14,11 +14,17 @@ impl<T: Copy + Default + PartialEq> Hashtable<T> {
 
     #[must_use]
     pub fn poll(&self, key: HashType) -> T {
+        if self.entries.is_empty() {
+            return T::default();
+        }
         let idx = self.get_idx(key);
         self.entries[idx]
     }
 
     pub fn add(&mut self, key: HashType, entry: &T) {
+        if self.entries.is_empty() {
+            return;
+        }
         let idx = self.get_idx(key);
         self.entries[idx] = *entry;
     }
